@@ -72,3 +72,50 @@ def wait_for_plug_update_watcher(sim, manager, name, wid, final, out):
     if (state['a'], state['b']) == final:
       sim.event('watcher_done', wid)
       return
+
+
+# ------------------------------------------------------------ UserInput scenario
+def ui_prompter(sim, plug, n, out):
+  """The phase side: asks n questions, each must be answered."""
+  from openhtf.plugs import user_input
+  for i in range(n):
+    try:
+      r = plug.prompt('question %d' % i, text_input=True, timeout_s=50.0)
+      sim.event('prompt_answered', i, r)
+      out.append(('answered', i, r))
+    except user_input.PromptUnansweredError:
+      sim.event('prompt_unanswered', i)
+      out.append(('unanswered', i))
+      return
+  out.append(('done',))
+
+
+def ui_responder(sim, plug, n, out):
+  """The station frontend: learns of prompts through (state, event) and answers them."""
+  answered = 0
+  while answered < n:
+    state, ev = plug.asdict_with_event()
+    if state is not None:
+      sim.event('respond', state['message'])
+      plug.respond(state['id'], 'answer to ' + state['message'])
+      answered += 1
+      continue
+    if not ev.wait(200.0):
+      sim.event('responder_gave_up')
+      out.append(('responder_timeout', answered))
+      return
+  out.append(('responder_done', answered))
+
+
+def ui_watcher(sim, plug, wid, done, pairs):
+  """A passive frontend: snapshot-then-wait until the scenario is over."""
+  while True:
+    state, ev = plug.asdict_with_event()
+    pairs[wid] = (None if state is None else state['message'], ev)
+    sim.event('ui_pair', wid, pairs[wid][0])
+    if done.get('over') and state is None:
+      return
+    ev.wait(300.0)
+    if done.get('over') and not ev.is_set():
+      # woken by the time-out only: nothing more will come
+      return
